@@ -11,7 +11,8 @@
 # at HS, VBUS loss at HS, soft disconnect at HS + bus_busy).  Scripts that start in HS operation run the nominal
 # handshake once in the prologue.  At every script position the explorer may, at the cost of one deviation (k = 1 quick;
 # thorough adds k = 2 over a reduced menu):
-#   * replace the segment by any (line state, duration) of the menu (durations straddle every threshold by -1..+3),
+#   * replace the segment by any (line state, duration) of the menu (durations straddle every threshold by -1..+3,
+#     plus threshold - 75 for the long ones, so that a long timer can expire in the middle of a 2.5 us measurement),
 #   * toggle one of vbus/disconnect/full_speed_only/low_speed_only/bus_busy for that segment or from there on,
 #   * insert a glitch segment (any line state, any menu duration <= 303 cycles) or a flag pulse before the segment.
 # States are deduplicated on (DUT registers, script position, deviations left, sticky flag mask, monitor).
@@ -63,6 +64,8 @@ T2P5US, T5US, T200US, T2MS, T2P5MS, T3MS = 150, 300, 12_000, 120_000, 150_000, 1
 SLACK = 16                            # cycles granted beyond 2.5 ms for the fallback to become visible
 
 MENU = [1, 2, 3, 10] + [t + d for t in (T2P5US, T5US, T200US, T2MS, T2P5MS, T3MS) for d in (-1, 0, 1, 2, 3)]
+MENU += [t - 75 for t in (T200US, T2MS, T2P5MS, T3MS)]    # a long timer expiring half-way through a 2.5 us measurement
+MENU.sort()
 SHORT = [d for d in MENU if d <= T5US + 3]
 MENU2 = [1, 10, 149, 151, 152, 299, 301, 302, 12_002, 120_002, 150_002, 180_002]   # reduced (k = 2)
 SHORT2 = [1, 10, 151, 301]
@@ -115,8 +118,8 @@ SCRIPTS = {
     # no host chirp: fall back to full speed after 2.5 ms; the next reset starts a new handshake
     "hs_fallback": ([], [S(J, 1000), S(SE0, 310), DEVCHIRP, S(SE0, 150_010), S(J, 1000), S(SE0, 310), S(K, 1000)],
                     ["device_chirp", "fallback", "chirp_started"]),
-    # host chirp starts too late to complete within 2.5 ms
-    "hs_late": ([], [S(J, 1000), S(SE0, 310), DEVCHIRP, S(SE0, 141_000)] + CHIRPS3 + [S(J, 1000), S(SE0, 310), S(K, 1000)],
+    # host chirp starts too late to complete within 2.5 ms (the time-out expires 75 cycles into the fourth chirp state)
+    "hs_late": ([], [S(J, 1000), S(SE0, 310), DEVCHIRP, S(SE0, 140_925)] + CHIRPS3 + [S(J, 1000), S(SE0, 310), S(K, 1000)],
                 ["device_chirp", "fallback", "chirp_started"]),
     # HS suspend and resume into HS (deviations also inside the handshake)
     "hs_suspend": ([], HSPRE + [S(SE0, HSREV), S(J, 12_010), S(J, 1000), S(K, 1000), S(SE0, 1000)],
